@@ -157,3 +157,12 @@ CLAIMED["C06"] = (
     "repository's example configurations only.",
     "Trusted: A-enc, A-smt. Everything outside the two units above is unverified here; 'corruption is reported' rests on the primitives (not claimed).",
     "DESIGN.md 7 C06")
+CLAIMED["C12"] = (
+    "Split into a generic theorem and data obligations. Generic (deductive, all values): a bit-field read after a write returns the value, "
+    "also through the SHIFT_RIGHT config processor of address fields (binary -> config -> binary keeps all 32 address bits), neighbours are "
+    "untouched (C11 units, re-verified in this check's closure), and a register's byte image has its width in the area's endianness. Data "
+    "(bounded, complete over the live database): every register file satisfies the theorem's precondition (fields inside the register, reset "
+    "and enum values fit). Area level (bounded, every family): PFR CMPA/CFPA fixed size, parse/export identity, binary-config-binary with "
+    "seeded values (known finding C12-KF1). Templates / YAML schemas / IFR, BCA, FCF, FCB, XMCD, TrustZone, fuses, memcfg are not covered.",
+    "Trusted: A-enc, A-smt, A-struct; _RegistersBase.export/parse, BaseConfigArea and the computed-field methods are NOT under contract.",
+    "DESIGN.md 7 C12")
